@@ -8,6 +8,7 @@ package traefikoidc
 // compiling and bin/check reports the broken tie ("harness build").
 
 import (
+	"net/http/httptest"
 	"math"
 	"net/http"
 	"time"
@@ -74,3 +75,20 @@ func vfLimPreCheck(t *TraefikOidc, token string) error { return t.performPreVeri
 
 // vfLimPreChecks runs what VerifyToken runs before any parsing or signature work
 func vfLimPreChecks(t *TraefikOidc, token string) error { return t.performPreVerificationChecks(token) }
+
+// vfLimMintSession: cookies of an authenticated session holding the given ID token, as the instance's session manager writes them
+func vfLimMintSession(t *TraefikOidc, email, idToken string) ([]*http.Cookie, error) {
+	req, _ := http.NewRequest("GET", "http://mint.invalid/", nil)
+	sd, err := t.sessionManager.GetSession(req)
+	if err != nil {
+		return nil, err
+	}
+	sd.SetAuthenticated(true)
+	sd.SetEmail(email)
+	sd.SetAccessToken(idToken)
+	rec := httptest.NewRecorder()
+	if err := sd.Save(req, rec); err != nil {
+		return nil, err
+	}
+	return rec.Result().Cookies(), nil
+}
